@@ -4,6 +4,7 @@
 //!
 //!   vh replay <module> <cases.ndjson>          spec -> impl
 //!   vh drive  <module> --seed S --n N --out F  impl -> spec (records a trace)
+mod builddecode;
 mod certchain;
 mod cms;
 mod cmsmsg;
@@ -47,6 +48,7 @@ fn main() {
         ("replay", "rrdp") => rrdp::replay(rest),
         ("replay", "manifest") => manifest::replay(rest),
         ("replay", "certchain") => certchain::replay(rest),
+        ("replay", "builddecode") => builddecode::replay(rest),
         ("replay", "sigobj") => sigobj::replay(rest),
         ("replay", "cmsmsg") => cmsmsg::replay(rest),
         ("drive", "cmsmsg") => cmsmsg::drive(rest),
